@@ -125,6 +125,21 @@ def run(ctx):
                     for s in blk["stmts"]:
                         _collect_text(s, texts)
                     _collect_text(blk["term"], texts)
+        # text kept in a named constant (`help = STACK_EXTENSION_HELP`) is part of the message as well
+        import json as _json
+        seen_c = set()
+        for nm, g in list(prog.fns.items()):
+            if nm == e or nm.startswith(e + "::"):
+                for m_ in re.finditer(r'"uneval": "([^"]+)"', _json.dumps(g.blocks)):
+                    cn = m_.group(1)
+                    if cn in prog.fns and cn not in seen_c and prog.fns[cn].bkind == "const" and cn != e and not cn.startswith(e + "::"):
+                        seen_c.add(cn)
+                        for cn2, g2 in prog.fns.items():
+                            if cn2 == cn or cn2.startswith(cn + "::"):
+                                for blk in g2.blocks:
+                                    for s_ in blk["stmts"]:
+                                        _collect_text(s_, texts)
+                                    _collect_text(blk["term"], texts)
         blob = " ".join(texts)
         ctx.instance(1, {"constructor": short(e), "message excerpts": [t for t in texts if "stack" in t][:3]})
         ok = "stack" in blob and "-f stack" in blob
